@@ -353,4 +353,45 @@ func extractC12(o *out) {
 		fmt.Fprintf(b, "  %d%s  -- %s\n", s.fp, sep, s.text)
 	}
 	fmt.Fprintf(b, "]\n")
+
+	// the session-bound handlers refuse before they act: the statement after `…, err := s.validateAndGetUser(…)` is
+	// `if err != nil { resp.Err = err } else …` — whatever the request carries (close flag, options, payload), nothing
+	// of it is looked at while the sender has not been validated as the owner of the live session it names
+	{
+		const file = "internal/streams/dns/dns_server_connection.go"
+		f := parse(file)
+		fmt.Fprintf(b, "/-- %s: for each handler of a command that carries a user id, is the statement that follows\n    `…, err := s.validateAndGetUser(…)` of the form `if err != nil { resp.Err = err } …` (nothing of the request is acted on\n    before the sender is validated)? -/\n", file)
+		fmt.Fprintf(b, "def handlerRefusesFirst : List (String × Bool) := [")
+		for i, name := range []string{"packet", "setOptionsRequest", "testDownstreamFragmentSize", "testUpstreamEncoder"} {
+			fd := findFunc(f, "ServerDnsListener", name)
+			ok := false
+			if fd == nil || fd.Body == nil {
+				fail("handler %s not found in %s", name, file)
+			} else {
+				found := false
+				for k, st := range fd.Body.List {
+					as, isAs := st.(*ast.AssignStmt)
+					if !isAs || len(as.Rhs) != 1 || !strings.HasPrefix(nodeText(as.Rhs[0]), "s.validateAndGetUser(") {
+						continue
+					}
+					found = true
+					if len(as.Lhs) == 2 && exprString(as.Lhs[1]) == "err" && k+1 < len(fd.Body.List) {
+						if is, isIf := fd.Body.List[k+1].(*ast.IfStmt); isIf && is.Init == nil && nodeText(is.Cond) == "err != nil" &&
+							len(is.Body.List) == 1 && nodeText(is.Body.List[0]) == "resp.Err = err" {
+							ok = true
+						}
+					}
+					break
+				}
+				if !found {
+					fail("handler %s no longer calls validateAndGetUser in a top-level assignment", name)
+				}
+			}
+			if i > 0 {
+				fmt.Fprintf(b, ", ")
+			}
+			fmt.Fprintf(b, "(%q, %v)", name, ok)
+		}
+		fmt.Fprintf(b, "]\n")
+	}
 }
